@@ -6,10 +6,15 @@ import YaegiVerif.Generated.C16
 /- Line-protocol front end for C16 (glue, not a proof obligation).
    eff  "root" "path"                       → y=<string>
    prev FS "rootPath" "root"                → y=ok:<string> | y=err
-   pkgdir FS "gopath" "root" "path"         → y=found:<dir>:<rpath> | notfound | err | fuel   g=<dir> | none
-   imports FS "gopath" "wd" "name" (PKG…) "maindir" (import…) (go-import…)
-                                            → y=ok:<dir,dir,…> | cycle:<path> | notfound:<path> | err | fuel
-                                              g=ok:<dir,…> | cycle | notfound:<path>
+   pkgdir FS "gopath" "root" "path"         → y=found:<dir>:<rpath> | notfound | err | fuel          (pkgDir alone)
+   gopkgdir FS "gopath" "root" "path"       → y=… (what importSrc calls: goPkgDir)   g=<dir> | none   (the Go rule)
+   mainroot "wd" "name" "gopath" "rpath"    → y=<string>
+   relpath "base" "path"                    → y=<string>
+   imports FS "gopath" "wd" "name" (PKG…) "maindir" gta|direct (import…) (go-import…)
+                                            → y=ok:<dir,dir,…> | cycle:<path> | notfound:<path> | notallowed:<path> |
+                                                notingopath | err | fuel
+                                              g=ok:<dir,…> | cycle | notfound:<path> | notallowed
+   gta|direct: the imports are those of a main file (they pass through gta) or arguments of EvalPath
    FS  = (mapfs|disk (dirs…) (files…))
    PKG = ("dir" "import"…)     imports of the package in that directory, in source order
    Strings are Go path strings; the model works on their split form. -/
@@ -81,6 +86,18 @@ partial def goImports (f : FS) (gs : Path) (pkgs : List (String × List String))
         | .error e => .error e
         | .ok (done, tr) => .ok (ds :: done, tr ++ [ds])
 
+/-- a package as importSrc sees it: its directory and the relative root its imports are resolved from -/
+def tok (d sub : String) : String := d ++ "\t" ++ sub
+def untok (t : String) : String × String :=
+  match Str.splitOn '\t' t.toList with
+  | [d, s] => (String.ofList d, String.ofList s)
+  | _ => (t, "")
+
+/-- gta's rewriting of one import path of a package of relative root `sub` -/
+def gtaKey (sub i : String) : String :=
+  let (_, i') := gtaRel words (parseP sub) (parseP i)
+  renderP (if Generated.C16.gtaCollapse then gtaImportPath i' else i')
+
 def handle (args : List Sexp) : String :=
   match args with
   | [.atom "eff", .atom root, .atom path] =>
@@ -92,35 +109,52 @@ def handle (args : List Sexp) : String :=
   | [.atom "pkgdir", fs, .atom gopath, .atom root, .atom path] =>
     (match parseFS fs with
      | some f =>
+       let r := parseP root
+       "y=" ++ showDir (pkgDir words f (parseP gopath) (defaultFuel r) r (parseP path))
+     | none => "bad-op")
+  | [.atom "gopkgdir", fs, .atom gopath, .atom root, .atom path] =>
+    (match parseFS fs with
+     | some f =>
        let gp := parseP gopath
        let r := parseP root
-       let y := pkgDir words f gp (defaultFuel r) r (parseP path)
+       let y := lookup words f gp r (parseP path)
        let gs := join [gp, ["src"]]
-       let g := match Spec.resolve f gs (relElems r) (parseP path) with
-         | some d => q (renderP d)
-         | none => "none"
-       "y=" ++ showDir y ++ " g=" ++ g
+       -- the Go rule: an importer that is not below GOPATH/src (noRoot) sees no vendor directory
+       let g := if r == [words.noRoot] then (if Spec.isDir f (gs ++ parseP path) then some (gs ++ parseP path) else none)
+                else Spec.resolve f gs (relElems r) (parseP path)
+       "y=" ++ showDir y ++ " g=" ++ (match g with | some d => q (renderP d) | none => "none")
      | none => "bad-op")
-  | [.atom "imports", fs, .atom gopath, .atom wd, .atom name, .list pkgs, .atom maindir, imps, gimps] =>
+  | [.atom "mainroot", .atom wd, .atom name, .atom gopath, .atom rpath] =>
+    "y=" ++ q (renderP (mainRoot words (parseP wd) (parseP name) (parseP gopath) (parseP rpath)))
+  | [.atom "relpath", .atom b, .atom p] =>
+    "y=" ++ q (renderP (relativePath (parseP b) (parseP p)))
+  | [.atom "imports", fs, .atom gopath, .atom wd, .atom name, .list pkgs, .atom maindir, .atom via, imps, gimps] =>
     (match parseFS fs, parsePkgs pkgs, imps.atoms?, gimps.atoms? with
      | some f, some pk, some imps, some gimps =>
        let gp := parseP gopath
        let gs := join [gp, ["src"]]
        let res : Resolver := fun rp ip =>
-         match resolveImport words f gp (parseP wd) (parseP name) (parseP rp) (parseP ip) with
-         | some (d, r') => some (renderP d, renderP r')
-         | none => none
-       let hasGo := fun d => (pk.lookup d).isSome
-       let gta := fun (i : String) => if Generated.C16.gtaCollapse then renderP (gtaImportPath (parseP i)) else i
-       let importsOf := fun d => ((pk.lookup d).getD []).map gta
-       let imps := imps.map gta
-       let sub := fun rp ip => renderP (effectivePkg (parseP rp) (parseP ip))
+         -- gta hands a relative import path over with the root `main`
+         let rp' := if words.relKey && isPathRelative (parseP ip) then [words.mainID] else parseP rp
+         match resolveImport words f gp (parseP wd) (parseP name) rp' (parseP ip) with
+         | .found d r' => .ok (tok (renderP d) (renderP (subRPath words r' (parseP ip))), renderP r')
+         | .notFound => .error (.notFound ip)
+         | .notAllowed => .error (.notAllowed ip)
+         | .notInGopath => .error .notInGopath
+         | .err => .error .other
+         | .fuel => .error .fuel
+       let hasGo := fun t => (pk.lookup (untok t).1).isSome
+       let importsOf := fun t => ((pk.lookup (untok t).1).getD []).map (gtaKey (untok t).2)
+       let imps := if via == "gta" then imps.map (gtaKey words.mainID) else imps
+       let sub := fun rp ip => renderP (subRPath words (parseP rp) (parseP ip))
        let st0 : ImpState := { srcPkg := [], rdir := [] }
        let y := match importAllWith (fun s i => importSrc book res hasGo importsOf sub (2 * pk.length + 8) s words.mainID i) st0 imps with
-         | .ok (_, tr) => "ok:" ++ q (",".intercalate (tr.map (·.2)))
+         | .ok (_, tr) => "ok:" ++ q (",".intercalate (tr.map (fun e => (untok e.2).1)))
          | .error (.cycle p) => "cycle:" ++ q p
          | .error (.notFound p) => "notfound:" ++ q p
-         | .error (.noGoFiles d) => "notfound:" ++ q d
+         | .error (.noGoFiles d) => "notfound:" ++ q (untok d).1
+         | .error (.notAllowed p) => "notallowed:" ++ q p
+         | .error .notInGopath => "notingopath"
          | .error .other => "err"
          | .error .fuel => "fuel"
        let md := parseP maindir
